@@ -1,4 +1,5 @@
 //! Shared machinery: tiers, case sweeps, panic capture, evidence, known findings, replay files.
+pub mod alloc;
 pub mod cli;
 pub mod explore;
 pub mod sweep;
